@@ -129,6 +129,13 @@ def generate(repo, ws, write_if_changed):
     emit("extended_header_c01.rs", slice_file(repo, "types/src/extended_header.rs", [
         dict(kind="fn", name="validate", impl=r"^impl ExtendedHeader$", wrap="impl ExtendedHeader"),
     ]))
+    emit("daser_c34.rs", slice_file(repo, "node/src/daser.rs", [
+        dict(kind="const", name="PRUNER_THRESHOLD"),
+        dict(kind="fn", name="on_want_to_prune", impl=r"impl<S> Worker<S>", wrap="impl Worker"),
+        dict(kind="fn", name="schedule_next_sample_block", impl=r"impl<S> Worker<S>", wrap="impl Worker"),
+        dict(kind="fn", name="update_queue", impl=r"impl<S> Worker<S>", wrap="impl Worker"),
+        dict(kind="fn", name="in_sampling_window", impl=r"impl<S> Worker<S>", wrap="impl Worker"),
+    ]))
     emit("commitment_c12.rs", slice_file(repo, "types/src/blob/commitment.rs", [
         dict(kind="fn", name="merkle_mountain_range_sizes"),
         dict(kind="fn", name="blob_min_square_size"),
